@@ -11,6 +11,7 @@ Monitors:
 """
 import io
 import os
+import re
 import random
 import shutil
 from concurrent.futures import ProcessPoolExecutor
@@ -408,8 +409,15 @@ def cli_part(chk, scratch, n_pairs):
         d = os.path.join(scratch, "cli%d" % i)
         os.makedirs(d)
         seed = chk.seed * 100 + i
-        w = world.standard_world(seed, n_chroms=2, genes_per_chrom=4, hidden=True)
-        world.add_standard_reads(w, per_transcript=6, jitter=3, hidden_cov=5)
+        if i % 2 == 1:
+            # polyA-rich data with multi-mapped reads: the polyA share decides whether model construction requires tails, and
+            # multi-mapped reads take another path through the saved files than uniquely mapped ones
+            from vlib import world2
+            w = world2.rich_world(seed, n_chroms=3, genes_per_chrom=3, polya_frac=0.97, hidden_cov=6, unmapped=0,
+                                  read_modes=("full", "full", "full", "trunc5"))
+        else:
+            w = world.standard_world(seed, n_chroms=2, genes_per_chrom=4, hidden=True)
+            world.add_standard_reads(w, per_transcript=6, jitter=3, hidden_cov=5)
         # reads with tags and groups
         for r in w.reads:
             r.tags = [("RG", "grp%d" % (hash(r.name) % 3))]
@@ -423,6 +431,8 @@ def cli_part(chk, scratch, n_pairs):
             opts += ["--count_exons", "--read_group", "tag:RG", "--bam_tags", "RG"]
         if i % 3 == 1:
             opts += ["--check_canonical", "--sqanti_output"]
+        if i % 4 == 1:
+            opts += ["--high_memory"]
         r1 = runner.run_isoquant(["-o", os.path.join(d, "o1"), "--bam", os.path.join(d, "r.bam"), "-p", "SMP", "--keep_tmp"] + opts, home)
         r2 = None
         if r1["rc"] == 0:
@@ -443,6 +453,18 @@ def cli_part(chk, scratch, n_pairs):
             chk.violation("reuse:run-from-saved-assignments-failed", "--read_assignments run exited %s: %s" % (r2["rc"], r2["out"][-400:]),
                           {"opts": opts})
             continue
+        # (d) the statistics the saving run worked with are the ones the restarted run reads back
+        stat = []
+        for r_ in (r1, r2):
+            m_ = re.findall(r"Total assignments used for analysis: (\d+), polyA tail detected in (\d+)", r_["out"])
+            stat.append(m_[-1] if m_ else None)
+        if stat[0] is None or stat[1] is None:
+            chk.inconclusive.append("assignment statistics line not found in the log of CLI pair %d" % i)
+        elif stat[0] != stat[1]:
+            chk.violation("reuse:assignment-statistics-differ", "saving run worked with (assignments, polyA) = %s, the run from saved assignments with %s" %
+                          (stat[0], stat[1]), {"opts": opts})
+        else:
+            chk.count("reuse_polya_share_%s" % ("high" if int(stat[0][1]) >= 0.7 * int(stat[0][0]) else "low"))
         # (d) outputs
         o1 = os.path.join(d, "o1", "SMP")
         o2 = os.path.join(d, "o2", "SMP0")
@@ -512,7 +534,7 @@ def run(chk, scratch):
     n_pairs = 24 if thorough else 3
     chk.rule = ("generated values over the format's representable domain (uints < 2^32-1 incl. sentinels, signed < 2^31, None ids, empty lists, "
                 "all enum members, strings up to 65534 chars incl. non-ASCII group names, penalties multiples of 2^-20); random streams of gene-info/"
-                "assignment records through both real loaders; real --keep_tmp files re-encoded; --read_assignments reuse pairs. "
+                "assignment records through both real loaders; real --keep_tmp files re-encoded; --read_assignments reuse pairs (polyA-poor and polyA-rich data, multi-mapped reads, --high_memory saving runs; assignment statistics and every output compared). "
                 "non-trivial = distinct (field, value class) combinations seen + reuse option sets")
     jobs = []
     for i in range(16):
@@ -535,6 +557,7 @@ def run(chk, scratch):
             for key, text, obj in res["viol"]:
                 chk.violation(key, "%s %s" % (key, text), {"object": obj})
     cli_part(chk, scratch, n_pairs)
+    chk.inconclusive_if(chk.extra.get("reuse_polya_share_high", 0) == 0, "no reuse pair on data whose polyA share is above the construction threshold")
     chk.extra.update({"roundtrips": fields, "streams": streams, "stream_records": records,
                       "value_classes": sorted(c for c in chk.nontrivial if not c.startswith("reuse:"))})
     chk.assumptions = ["structural comparison in vlib/checks/c15.py", "penalties compared with tolerance 2^-20 (stored as floor(x*2^20))",
